@@ -31,7 +31,7 @@ import (
 
 func TestMain(m *testing.M) { drv.Main(m) }
 
-const rule = "a world of owned objects is built on the real application (CL positions incl. a transferred one and a superfluid full-range one; locks: bonded, unlocking, split, superfluid-delegated, superfluid-undelegating; factory denoms: plain, admin-changed, admin-renounced, other creator), then one state-changing message naming one object (or, for the position messages that take a list, a batch in which the sender's own positions surround the foreign one at a generated place) is sent by a generated non-authorised sender (funded stranger holding the same assets, zero-balance stranger, owner of another object of the kind, previous owner/admin, the pool address, module accounts) and - as a control on a discarded branch - by the rightful owner/admin; oracle: unauthorised => transaction fails and the digest of all KV stores is unchanged; control => succeeds (so the failure is not vacuous); renounced admin => fails for everyone; mint-to / burn-from / force-transfer touching a module account fails; created denoms are factory/{sender}/{sub} and an existing denom (renounced ones included) cannot be created again by its creator; for every message the signers derived by the application codec must be exactly the declared sender; one attempt in three is repeated through authz.MsgExec naming the rightful owner (no grant / third-party grant / owner grant for another type => fails without trace, owner grant for this type => succeeds); position ids reach two digits in three worlds of four; non-trivial = wrong sender is a previous owner/admin or owns another object of the same kind or holds the assets the message moves; distinct by (message, object, sender) hash"
+const rule = "a world of owned objects is built on the real application (CL positions incl. a transferred one and a superfluid full-range one; locks: bonded, unlocking, split, superfluid-delegated, superfluid-undelegating; factory denoms: plain, admin-changed, admin-renounced, other creator), then one state-changing message naming one object (or, for the position messages that take a list, a batch in which the sender's own positions surround the foreign one at a generated place) is sent by a generated non-authorised sender (funded stranger holding the same assets, zero-balance stranger, owner of another object of the kind, previous owner/admin, the pool address, module accounts) and - as a control on a discarded branch - by the rightful owner/admin; oracle: unauthorised => transaction fails and the digest of all KV stores is unchanged; control => succeeds (so the failure is not vacuous); renounced admin => fails for everyone; mint-to / burn-from / force-transfer touching a module account (named in lower- or upper-case bech32) fails; created denoms are factory/{sender}/{sub} and an existing denom (renounced ones included) cannot be created again by its creator; for every message the signers derived by the application codec must be exactly the declared sender; one attempt in three is repeated through authz.MsgExec naming the rightful owner (no grant / third-party grant / owner grant for another type => fails without trace, owner grant for this type => succeeds); position ids reach two digits in three worlds of four; non-trivial = wrong sender is a previous owner/admin or owns another object of the same kind or holds the assets the message moves; distinct by (message, object, sender) hash"
 
 const (
 	A0 = iota // main owner
